@@ -271,7 +271,7 @@ func mcReflectCheckJobs(c *Ctx, jobs []ReflJob, inScope func(v ReflVerdict) bool
 	var never []string
 	for _, k := range []string{"Set/ok", "Clear/ok", "Mutable/view", "Mutable/panic", "SetNew/ok", "LAppend/ok", "LAppend/panic", "LSet/ok", "LSet/panic",
 		"LTruncate/ok", "LTruncate/panic", "LAppendMutable/view", "LAppendMutable/panic", "LAppendNew/ok", "MSet/ok", "MSet/panic", "MClear/ok",
-		"MMutable/view", "MMutable/panic", "MSetNew/ok", "MRetained/ok", "LRetained/ok", "ViewClear/bool", "SetInvalid/panic", "LElemKept/bytes", "SetUnknown/ok", "SetUnknownHold/bytes", "Has/bool", "Get/scalar", "Get/view", "Getter/scalar",
+		"MMutable/view", "MMutable/panic", "MSetNew/ok", "MRetained/ok", "LRetained/ok", "ViewClear/bool", "SetInvalid/panic", "LElemKept/bytes", "MSetFill/ok", "UnknownHandover/bytes", "SetUnknown/ok", "SetUnknownHold/bytes", "Has/bool", "Get/scalar", "Get/view", "Getter/scalar",
 		"NewField/view", "LGet/scalar", "LGet/panic", "LLen/int", "MGet/scalar", "MGet/invalid", "MHas/bool", "MRange/keys", "MRangeFirst/int",
 		"Which/int", "Range/nums", "RangeFirst/int", "GetUnknown/bytes", "IsValid/bool", "LIsValid/bool", "MIsValid/bool", "LNewElement/view", "MNewValue/view"} {
 		if st.ByOp[k] == 0 {
